@@ -2,6 +2,8 @@ package checks
 
 import (
 	"math/rand"
+	"strings"
+	"time"
 
 	"verifharness/internal/core"
 	"verifharness/internal/gen"
@@ -39,10 +41,60 @@ func opbCons(r *rand.Rand, n, W int) gen.M {
 	return gen.Ctor(kind, lits, w, rhs)
 }
 
+// textCases: every well-formed text enumerated by FormatsGen.tla goes through the readers of its
+// format as it is (the bytes come from the specification, the driver only feeds them): DIMACS through
+// solver.ParseCNF and explain.ParseCNF, OPB through solver.ParseOPB, WCNF through maxsat.ParseWCNF
+// followed by Optimal. In the quick tier the larger enumerations are sampled.
+func textCases(sample int) func(env *core.Env, emitted []core.Case) []core.Case {
+	return func(env *core.Env, emitted []core.Case) []core.Case {
+		var res []core.Case
+		step := 1
+		if env.Quick() && sample > 0 && len(emitted) > sample {
+			step = len(emitted)/sample + 1
+		}
+		off := 0
+		if step > 1 {
+			off = env.Rand.Intn(step)
+		}
+		for i := off; i < len(emitted); i += step {
+			e := emitted[i]
+			kind, _ := e["kind"].(string)
+			base := func(drv string) gen.M {
+				return gen.M{"drv": drv, "kind": kind, "n": int(e["n"].(float64)), "m": int(e["m"].(float64)), "withTop": e["withTop"],
+					"ts": e["ts"], "text": e["text"], "cons": []gen.M{}, "hasObj": false, "obj": gen.NoObj(), "cfg": fmtCfg(env.Rand, 0)}
+			}
+			switch kind {
+			case "cnf":
+				c := base("fmt")
+				c["ev"] = []gen.M{gen.Op("parse"), gen.Op("eparse")}
+				res = append(res, c)
+			case "opb":
+				c := base("fmt")
+				c["ev"] = []gen.M{gen.Op("parse")}
+				res = append(res, c)
+			case "wcnf":
+				c := base("maxsat")
+				c["route"], c["top"], c["tm"] = "wcnf", 0, "MaxSatTrace"
+				c["ev"] = []gen.M{gen.OpChan("optimal", false)}
+				res = append(res, c)
+			}
+		}
+		return res
+	}
+}
+
 func init() {
 	register(&core.Check{
 		ID:          "C13",
 		TraceModule: "FormatsTrace",
+		Designs: []core.Design{
+			{Name: "texts-cnf", Module: "FormatsGen", Cfg: "FormatsGen_cnf.cfg", Tier: "quick", Workers: 8, XmxMB: 4000, Timeout: 10 * time.Minute, ToCases: textCases(0)},
+			{Name: "texts-wcnf", Module: "FormatsGen", Cfg: "FormatsGen_wcnf.cfg", Tier: "quick", Workers: 8, XmxMB: 4000, Timeout: 10 * time.Minute, ToCases: textCases(0)},
+			{Name: "texts-opb", Module: "FormatsGen", Cfg: "FormatsGen_opb.cfg", Tier: "quick", Workers: 8, XmxMB: 4000, Timeout: 10 * time.Minute, ToCases: textCases(2500)},
+			{Name: "texts-cnf", Module: "FormatsGen", Cfg: "FormatsGen_cnf_thorough.cfg", Tier: "thorough", Workers: 16, XmxMB: 8000, Timeout: 20 * time.Minute, ToCases: textCases(0)},
+			{Name: "texts-wcnf", Module: "FormatsGen", Cfg: "FormatsGen_wcnf_thorough.cfg", Tier: "thorough", Workers: 16, XmxMB: 8000, Timeout: 20 * time.Minute, ToCases: textCases(0)},
+			{Name: "texts-opb", Module: "FormatsGen", Cfg: "FormatsGen_opb_thorough.cfg", Tier: "thorough", Workers: 16, XmxMB: 8000, Timeout: 30 * time.Minute, ToCases: textCases(0)},
+		},
 		Cases: func(env *core.Env) []core.Case {
 			r := env.Rand
 			var res []core.Case
@@ -106,10 +158,17 @@ func init() {
 			for _, e := range evs(t) {
 				cov["op."+s(e, "op")]++
 			}
+			if ts, _ := t["ts"].([]any); len(ts) > 0 {
+				cov["text."+kind]++
+				if txt := s(t, "text"); !strings.HasSuffix(txt, "\n") {
+					cov["text.no-final-newline"]++
+				}
+				return len(ts) >= 4
+			}
 			return len(sub(t, "cons")) >= 2
 		},
-		Rule:    "cases: abstract files (DIMACS n<=8 incl. empty / duplicate-literal / tautological clauses and unused variables; OPB n<=5 with <=4 constraints, coefficients in [-3,3], relations >=, =, trivially true / false constraints, objective with coefficients of either sign; WCNF n<=7 with / without top weight) printed with seeded free layout (spacing, tabs, CRLF, comments, clauses spanning lines or sharing a line, '+' signs) and read by solver.ParseCNF, explain.ParseCNF, solver.ParseOPB, maxsat.ParseWCNF; non-trivial = at least two constraints",
-		Require: []string{"kind.cnf", "kind.opb", "kind.wcnf", "op.parse", "op.eparse", "layout.0", "layout.1", "layout.2", "opb.objective"},
+		Rule:    "cases: (a) every well-formed text FormatsGen.tla enumerates (all token strings of length <= 5 / 7 for DIMACS and WCNF over 2 variables: clauses spanning lines, several clauses per line, comment lines, last line without newline; OPB texts built from statements with at most 2 terms), fed byte for byte to the readers and judged by the reference readers of Formats.tla; (b) abstract files (DIMACS n<=8 incl. empty / duplicate-literal / tautological clauses and unused variables; OPB n<=5 with <=4 constraints, coefficients in [-3,3], relations >=, =, trivially true / false constraints, objective with coefficients of either sign; WCNF n<=7 with / without top weight) printed with seeded free layout (spacing, tabs, CRLF, comments, clauses spanning lines or sharing a line, '+' signs) and read by solver.ParseCNF, explain.ParseCNF, solver.ParseOPB, maxsat.ParseWCNF; non-trivial = at least two constraints",
+		Require: []string{"kind.cnf", "kind.opb", "kind.wcnf", "op.parse", "op.eparse", "layout.0", "layout.1", "layout.2", "opb.objective", "text.cnf", "text.opb", "text.wcnf", "text.no-final-newline"},
 	})
 
 	register(&core.Check{
